@@ -11,7 +11,11 @@ CFG = dict(
          "are records published by the real pipeline (PrepareRun, ConfigureProjectorsBases, ProcessSegments -> TriggerData -> AnalyzeData), "
          "half of them in edge-multi VARIABLE-LENGTH mode (real ConfigureTriggers RPC, closely spaced pulses on a sloping baseline: real records "
          "with a pre-trigger section and length shorter than configured); 35% of the direct cases analyse a record whose own presamples / length "
-         "differ from the processor's configured NPresamples / NSamples (shorter, longer, different split). "
+         "differ from the processor's configured NPresamples / NSamples (shorter, longer, different split); 12% of all cases use a model whose "
+         "basis does NOT span a constant (pulse shapes, projectors orthogonal to a constant) on well-fitted high-baseline records, so the "
+         "residual has a mean of tens of thousands and a spread below one count; the residual standard deviation is judged against the exact "
+         "population variance within the rounding of the correct two-pass algorithm (relative ~L*2^-53 plus the measured effect of the rounded "
+         "coefficients, about 1e-9; derivation in Model/C13.lean residBand and notes/C13.md). "
          "Every float64 result crosses as its IEEE bit pattern; the Lean driver turns it into an exact rational, evaluates the DEFINITIONS "
          "exactly (Rat) on the integer record and the exact value of every matrix entry and demands agreement within the stated rounding "
          "tolerances (RMS and residual std-dev on squares); NaN/Inf where the definition is finite is a violation; the float32 values of the "
